@@ -346,6 +346,8 @@ CHECKS = {
             # free-running producers/consumer on the real scheduler inside a bubble: no stuck consumer at quiescence, conservation, duplicate counts
             dict(name="stress", run="TestC11Stress", checks=dict(quick=60, thorough=300), shards=dict(quick=4, thorough=16),
                  args=dict(quick=["-c11.rounds=300"], thorough=["-c11.rounds=1000"])),
+            # the consumer parked between its emptiness check and its select while inserts complete, the queue is closed and another goroutine holds the queue's mutex
+            dict(name="window", run="TestC11Window", checks=dict(quick=600, thorough=6000), shards=dict(quick=1, thorough=4)),
         ],
     ),
     "C20": dict(
